@@ -76,7 +76,7 @@ def c12(ctx):
 C05_CLAUSES = {"upstream_sequential", "in_order", "processed_at_most_once", "complete_at_end",
                "nothing_after_end", "iteration_ends", "progress"}
 C09_CLAUSES = {"bounded_lookahead", "bounded_pulls_after_drop", "threads_exit", "progress",
-               "terminates_on_panic", "buffered_lookahead", "buffered_pulls_after_drop",
+               "terminates_on_panic", "panic_ends_the_process", "buffered_lookahead", "buffered_pulls_after_drop",
                "buffered_producer_exits", "buffered_in_order", "buffered_complete"}
 TIMING_CLAUSES = {"progress", "iteration_ends", "threads_exit", "buffered_producer_exits"}
 PIPE_INVS = "TypeOK InOrder AtMostOnce Complete LookAhead AfterDrop TurnInv IndInvHere"
